@@ -1551,19 +1551,19 @@ def set_method(I, st, ref, name):
         if (is_z3(a[0]) and _plain_number(a[0])) or st.get(ref).kind == "numset":
             yield from numset_add(I, st, ref, a[0])
             return
-        x = I.set_elem(st, a[0])
+        x = I.set_elem(st, a[0], S(st))
         if x not in S(st):
             S(st).append(x)
         yield st, None
 
     def discard(I, st, a, k):
-        x = I.set_elem(st, a[0])
+        x = I.set_elem(st, a[0], S(st))
         if x in S(st):
             S(st).remove(x)
         yield st, None
 
     def remove(I, st, a, k):
-        x = I.set_elem(st, a[0])
+        x = I.set_elem(st, a[0], S(st))
         if x in S(st):
             S(st).remove(x)
             yield st, None
@@ -1573,7 +1573,7 @@ def set_method(I, st, ref, name):
     def update(I, st, a, k):
         for src in a:
             for x in I.iterate(src, st):
-                x = I.set_elem(st, x)
+                x = I.set_elem(st, x, S(st))
                 if x not in S(st):
                     S(st).append(x)
         yield st, None
@@ -1582,6 +1582,7 @@ def set_method(I, st, ref, name):
         out = list(S(st))
         for src in a:
             for x in I.iterate(src, st):
+                I.set_elem(st, x, out)
                 if x not in out:
                     out.append(x)
         yield st, st.alloc(SetE(out))
@@ -1590,6 +1591,8 @@ def set_method(I, st, ref, name):
         out = list(S(st))
         for src in a:
             other = I.iterate(src, st)
+            for x in other:
+                I.set_elem(st, x, out)
             out = [x for x in out if x in other]
         yield st, st.alloc(SetE(out))
 
@@ -1597,18 +1600,22 @@ def set_method(I, st, ref, name):
         out = list(S(st))
         for src in a:
             other = I.iterate(src, st)
+            for x in other:
+                I.set_elem(st, x, out)
             out = [x for x in out if x not in other]
         yield st, st.alloc(SetE(out))
 
     def difference_update(I, st, a, k):
         # s.difference_update(*others): remove every element found in any of the others (in place, returns None)
         for src in a:
-            other = [I.set_elem(st, x) for x in I.iterate(src, st)]
+            other = [I.set_elem(st, x, S(st)) for x in I.iterate(src, st)]
             S(st)[:] = [x for x in S(st) if x not in other]
         yield st, None
 
     def issubset(I, st, a, k):
         other = I.iterate(a[0], st)
+        for x in S(st):
+            I.set_elem(st, x, other)
         yield st, all(x in other for x in S(st))
 
     def copy(I, st, a, k):
@@ -1621,7 +1628,7 @@ def set_method(I, st, ref, name):
         mine = list(S(st))
         other = []
         for x in I.iterate(a[0], st):
-            x = I.set_elem(st, x)
+            x = I.set_elem(st, x, S(st))
             if x not in other:
                 other.append(x)
         if any(is_z3(x) for x in mine + other) or st.get(ref).kind == "numset":
@@ -1916,7 +1923,7 @@ def call_builtin_class(I, st, c, args, kwargs):
     elif n == "set" or n == "frozenset":
         items = []
         for x in I.iterate(args[0], st) if args else []:
-            I.set_elem(st, x)
+            I.set_elem(st, x, items)
             if x not in items:
                 items.append(x)
         yield st, st.alloc(SetE(items))
